@@ -143,7 +143,7 @@ func (w *World) doStep(fair bool) bool {
 		acts = append(acts, Action{Key: "tick:" + d.String(), Kind: "tick", Weight: wt, run: func(uint64) { w.tick(d) }})
 	}
 	if idle {
-		if _, isReplay := w.chooser.(*replayChooser); !isReplay {
+		if _, isReplay := w.chooser.(*replayChooser); !isReplay { // a replayed trace contains the forced ticks
 			i := forcedTick(w, acts)
 			w.trace = append(w.trace, acts[i].Key)
 			w.sigParts = append(w.sigParts, "tick")
@@ -355,37 +355,73 @@ func (f *fairChooser) Choose(w *World, acts []Action) (int, uint64) {
 	return best, 0
 }
 
-// replayChooser replays a recorded trace by key.
+// replayChooser replays a recorded trace by key. In lenient mode (minimiser) a recorded
+// choice that is not enabled is skipped, and a task step whose site differs is matched by
+// task name; in strict mode the first mismatch is a divergence.
 type replayChooser struct {
 	trace    []string
 	pos      int
+	lenient  bool
+	Skipped  int
 	Diverged string
 }
 
-func (r *replayChooser) Choose(w *World, acts []Action) (int, uint64) {
-	if r.pos >= len(r.trace) {
-		return -1, 0
-	}
-	ent := r.trace[r.pos]
-	key, aux := ent, uint64(0)
+func splitAux(ent string) (string, uint64) {
 	if i := strings.LastIndexByte(ent, '|'); i >= 0 {
 		if v, err := strconv.ParseUint(ent[i+1:], 10, 64); err == nil {
-			key, aux = ent[:i], v
+			return ent[:i], v
 		}
 	}
-	for i, a := range acts {
-		if a.Key == key {
-			r.pos++
-			return i, aux
-		}
+	return ent, 0
+}
+
+func taskOfKey(key string) string {
+	if !strings.HasPrefix(key, "task:") {
+		return ""
 	}
-	var en []string
-	for _, a := range acts {
-		if a.Kind != "tick" {
-			en = append(en, a.Key)
-		}
+	if i := strings.LastIndexByte(key, '@'); i >= 0 {
+		return key[:i]
 	}
-	r.Diverged = fmt.Sprintf("step %d: recorded action %q is not enabled; enabled: %v", r.pos, ent, en)
+	return key
+}
+
+func (r *replayChooser) Choose(w *World, acts []Action) (int, uint64) {
+	for r.pos < len(r.trace) {
+		ent := r.trace[r.pos]
+		key, aux := splitAux(ent)
+		for i, a := range acts {
+			if a.Key == key {
+				r.pos++
+				if a.Kind == "net" && aux >= uint64(a.Bytes) {
+					aux = 0 // (lenient) fewer bytes in flight than recorded: deliver all
+				}
+				return i, aux
+			}
+		}
+		if !r.lenient {
+			var en []string
+			for _, a := range acts {
+				if a.Kind != "tick" {
+					en = append(en, a.Key)
+				}
+			}
+			r.Diverged = fmt.Sprintf("step %d: recorded action %q is not enabled; enabled: %v", r.pos, ent, en)
+			return -1, 0
+		}
+		if tk := taskOfKey(key); tk != "" {
+			for i, a := range acts {
+				if a.Kind == "task" && taskOfKey(a.Key) == tk {
+					r.pos++
+					if a.NAlt < 2 {
+						aux = 0
+					}
+					return i, aux
+				}
+			}
+		}
+		r.pos++
+		r.Skipped++
+	}
 	return -1, 0
 }
 
